@@ -71,6 +71,7 @@ func (p *vPages) WriteRobotsTxt(http.ResponseWriter, *http.Request)           {}
 
 // ---- session store ----
 type vStore struct {
+	reliable   bool
 	saveCalls  int
 	saveErr    error
 	saved      *sessionsapi.SessionState
@@ -82,7 +83,7 @@ type vStore struct {
 func (s *vStore) Save(_ http.ResponseWriter, _ *http.Request, ss *sessionsapi.SessionState) error {
 	s.saveCalls++
 	s.saved = ss
-	if ndBool("store-save-fails") {
+	if !s.reliable && ndBool("store-save-fails") {
 		s.saveErr = vErrStore
 	}
 	return s.saveErr
@@ -93,7 +94,7 @@ func (s *vStore) Load(_ *http.Request) (*sessionsapi.SessionState, error) {
 }
 func (s *vStore) Clear(_ http.ResponseWriter, _ *http.Request) error {
 	s.clearCalls++
-	if ndBool("store-clear-fails") {
+	if !s.reliable && ndBool("store-clear-fails") {
 		s.clearErr = vErrStore
 	}
 	return s.clearErr
@@ -102,6 +103,7 @@ func (s *vStore) VerifyConnection(context.Context) error { return nil }
 
 // ---- identity provider ----
 type vProvider struct {
+	permissive     bool // no faults, always authorised (harnesses about something else)
 	data           *providers.ProviderData
 	authorizeCalls int
 	authorized     bool
@@ -130,7 +132,7 @@ func (p *vProvider) GetLoginURL(redirectURI, finalRedirect, nonce string, extraP
 func (p *vProvider) Redeem(_ context.Context, redirectURI, code, codeVerifier string) (*sessionsapi.SessionState, error) {
 	p.redeemCalls++
 	p.redeemURI, p.redeemCode, p.redeemVerifier = redirectURI, code, codeVerifier
-	if ndBool("idp-redeem-fails") {
+	if !p.permissive && ndBool("idp-redeem-fails") {
 		p.redeemErr = vErrIdP
 		return nil, p.redeemErr
 	}
@@ -140,21 +142,21 @@ func (p *vProvider) GetEmailAddress(context.Context, *sessionsapi.SessionState) 
 	return "", providers.ErrNotImplemented
 }
 func (p *vProvider) EnrichSession(context.Context, *sessionsapi.SessionState) error {
-	if ndBool("idp-enrich-fails") {
+	if !p.permissive && ndBool("idp-enrich-fails") {
 		p.enrichErr = vErrIdP
 	}
 	return p.enrichErr
 }
 func (p *vProvider) Authorize(context.Context, *sessionsapi.SessionState) (bool, error) {
 	p.authorizeCalls++
-	p.authorized = ndBool("idp-authorized")
-	if ndBool("idp-authorize-errs") {
+	p.authorized = p.permissive || ndBool("idp-authorized")
+	if !p.permissive && ndBool("idp-authorize-errs") {
 		p.authorizeErr = vErrIdP
 	}
 	return p.authorized, p.authorizeErr
 }
 func (p *vProvider) ValidateSession(context.Context, *sessionsapi.SessionState) bool {
-	p.validateOK = ndBool("idp-validate-ok")
+	p.validateOK = p.permissive || ndBool("idp-validate-ok")
 	return p.validateOK
 }
 func (p *vProvider) RefreshSession(context.Context, *sessionsapi.SessionState) (bool, error) {
